@@ -9,6 +9,7 @@ from ..rules import run as analyse, returns, fmt, is_app, S, C, conds_str
 
 OPS = {'__add__': ('add', 'numpy.add'), '__sub__': ('subtract', 'numpy.subtract'),
        '__mul__': ('multiply', 'numpy.multiply'), '__rmul__': ('multiply', 'numpy.multiply'),
+       '__radd__': ('add', 'numpy.add'),        # 5 + s is s + 5: the commutative operators exist on both sides
        '__truediv__': ('divide', 'numpy.divide'), '__pow__': ('power', 'numpy.power')}
 SPEC = 'radiometry.Spectrum'
 
@@ -23,7 +24,7 @@ def run(chk, repo, tier):
     chk.clause('C13-o', 'arithmetic, sampling, integrating and binning leave the operand spectra untouched', 8)
     from .common import operands_untouched
     operands_untouched(chk, repo, 'C13-o', ['radiometry.Spectrum._ufunc', 'radiometry.Spectrum.add', 'radiometry.Spectrum.subtract', 'radiometry.Spectrum.multiply', 'radiometry.Spectrum.divide', 'radiometry.Spectrum.power', 'radiometry._interp_common', 'radiometry.Spectrum.sample', 'radiometry.Spectrum.integrate', 'radiometry.Spectrum.bin'], allow=[])
-    chk.clause('C13-a', 'operator table: dunder -> named method -> numpy ufunc', 12)
+    chk.clause('C13-a', 'operator table: dunder -> named method -> numpy ufunc', 14)
     chk.clause('C13-b', 'operands are not modified by arithmetic, sampling, binning or integration', 6)
     chk.clause('C13-c', 'the unit of each operand is consulted before their wavelength grids are combined', 2)
     from .c14 import unit_label_order_rule
@@ -31,7 +32,7 @@ def run(chk, repo, tier):
     from .c14 import rescaled_copy_rule
     rescaled_copy_rule(chk, repo, 'C13-c')
     chk.clause('C13-d', 'no internal call relies on the hard-coded default wavelength unit', 5)
-    chk.clause('C13-e', 'the result is a new Spectrum; scalar/vector operands keep the wavelength grid', 3)
+    chk.clause('C13-e', 'the result is a new Spectrum; scalar/vector operands (numpy scalars included) keep the wavelength grid', 4)
     chk.clause('C13-f', 'common grid built symmetrically; both operands sampled and filled the same way', 3)
     chk.clause('C13-g', 'operand samples are taken on the closed range of the operand; min sampling over both operands', 2)
     chk.not_decided += ['interpolated values', 'grid construction numerics']
@@ -211,6 +212,34 @@ def run(chk, repo, tier):
                 if not plain:
                     value_ok = False
                     value_det = f'value = {fmt(vv)[:120]}'
+    # numbers that reach the element-wise branch: numpy's integer scalars are not instances of int
+    ok_sc, det_sc = None, 'dispatch not understood'
+    for p in rets:
+        if p.calls('radiometry._interp_common'):
+            continue
+        from ..rules import literals
+        tests = []
+        for c, pol in literals(p.conds):
+            a = c.single_atom() if isinstance(c, Poly) else None
+            if a is not None and is_app(a, 'isinstance') and a[2] and a[2][0] == S('other'):
+                tests.append((repr(a[2][1]) if len(a[2]) > 1 else '', pol))
+            elif a is not None and is_app(a, ('numpy.isscalar', 'isscalar')) and a[2] and a[2][0] == S('other') and pol:
+                tests.append(('numpy.isscalar', pol))
+        pos = [t for t, pol in tests if pol]
+        if not pos:
+            if tests:
+                ok_sc, det_sc = True, 'everything that is not a Spectrum is handed to the ufunc'
+            continue
+        txt = ' '.join(pos)
+        np_scalar = any(k in txt for k in ('numpy.number', 'numpy.generic', 'numpy.integer', 'numbers.Number', 'numbers.Real',
+                                           'numbers.Integral', 'numpy.isscalar', 'numpy.ScalarType'))
+        if np_scalar:
+            ok_sc, det_sc = True, 'numpy scalars are admitted'
+        elif "'int'" in txt and "'float'" in txt:
+            ok_sc = False
+            det_sc = 'the element-wise branch asks isinstance(other, (int, float, ...)) only: np.int64 / np.float32 are neither, ' \
+                     'so `spectrum * np.int64(2)` raises TypeError'
+    chk.ob('C13-e', 'T-dispatch', fu.key, 'numpy scalars are scalars: they reach the element-wise branch', ok_sc, det_sc, fu.loc())
     chk.ob('C13-e', 'D-flow', fu.key, 'two spectra: grid and values from _interp_common(self, other, ...)',
            two_ok and two_seen, '', fu.loc())
     chk.ob('C13-e', 'D-flow', fu.key, 'two spectra: the value is the operation applied to the two interpolated values and nothing else '
